@@ -197,3 +197,30 @@ def success_dominates(body, call_block, target_block, facts):
             # same block: the unwrap call is the terminator, target executes before it returns
             continue
     return False
+
+
+def all_edge_lits(body, facts):
+    """[(edge node id, Lit)] for every switch edge of the body"""
+    c = body._cache.get("all_edge_lits")
+    if c is not None:
+        return c
+    cfg = cfg_of(body)
+    out = []
+    for (s, k), e in cfg.edge_nodes.items():
+        if s not in cfg.reach:
+            continue
+        _, _, v, tgt = cfg.edge_info[e]
+        lit = decode(body, s, v, facts)
+        lit.edge = (s, k, v, tgt)
+        out.append((e, lit))
+    body._cache["all_edge_lits"] = out
+    return out
+
+
+def status_variant(t):
+    """enum variant named by a (promoted) constant operand term, e.g. &Status::Ready -> 'Ready'"""
+    from .defuse import walk
+    for x in walk(t):
+        if x[0] == "agg" and not x[3]:
+            return (x[1], x[2])
+    return None
